@@ -1,5 +1,6 @@
 //! Adapter for the Generalized `TriG` parser from [RIO](https://github.com/Tpt/rio/blob/master/turtle/src/gtrig.rs)
 
+use super::IriCheckedSource;
 use rio_turtle::GTriGParser as RioGTriGParser;
 use sophia_api::parser::QuadParser;
 use sophia_iri::Iri;
@@ -14,7 +15,7 @@ pub struct GTriGParser {
 }
 
 impl<B: BufRead> QuadParser<B> for GTriGParser {
-    type Source = GeneralizedRioSource<RioGTriGParser<B>>;
+    type Source = IriCheckedSource<GeneralizedRioSource<RioGTriGParser<B>>>;
     fn parse(&self, data: B) -> Self::Source {
         let base = self
             .base
@@ -22,7 +23,7 @@ impl<B: BufRead> QuadParser<B> for GTriGParser {
             .map(Iri::unwrap)
             .map(oxiri::Iri::parse)
             .map(Result::unwrap);
-        GeneralizedRioSource(RioGTriGParser::new(data, base))
+        IriCheckedSource(GeneralizedRioSource(RioGTriGParser::new(data, base)))
     }
 }
 
